@@ -147,6 +147,33 @@ fn run(rng: &mut Rng, idx: u64, tier: Tier) -> CaseOut {
         out.violate("extended entry point with empty context differs from the plain one", format!("sanitised variants on `{text}`"), detail("empty context, sanitised"));
         return out;
     }
+    // the multi-formula extended entry point against the plain one, on a batch whose formulae have different heights
+    if !with_domains {
+        let mut batch: Vec<String> = vec![text.clone()];
+        for (_, sub) in &picked {
+            batch.push(sub.canon());
+        }
+        batch.push(F::Prop(world.net.names[0].clone()).canon());
+        if rng.coin() {
+            batch.reverse();
+        }
+        let refs: Vec<&str> = batch.iter().map(|s| s.as_str()).collect();
+        let plain_batch = call(|| biodivine_hctl_model_checker::model_checking::model_check_multiple_formulae_dirty(refs.clone(), &sys.graph));
+        let ext_batch = call(|| biodivine_hctl_model_checker::model_checking::model_check_multiple_extended_formulae_dirty(refs.clone(), &sys.graph, &empty));
+        if let (Call::Ok(pb), Call::Ok(eb)) = (plain_batch, ext_batch) {
+            out.count("empty_context_batches");
+            for i in 0..batch.len() {
+                if pb[i] != eb[i] {
+                    out.violate(
+                        "extended entry point with empty context differs from the plain one",
+                        format!("batch {batch:?}: position {i} differs between model_check_multiple_formulae_dirty and model_check_multiple_extended_formulae_dirty with an empty context"),
+                        detail("batch, empty context"),
+                    );
+                    return out;
+                }
+            }
+        }
+    }
     if picked.is_empty() {
         drain_events(&mut out);
         return out;
